@@ -69,7 +69,14 @@ pub struct Items<T>(mpsc::Receiver<T>);
 impl<T> Iterator for Items<T> {
   type Item = T;
   fn next(&mut self) -> Option<Self::Item> {
+    #[cfg(ast_grep_verif)]
+    {
+      let ret = self.0.recv().ok();
+      ast_grep_core::verif_hook::emit(if ret.is_some() { "recv" } else { "chan_closed" }, "");
+      return ret;
+    }
     // TODO: add error reporting here
+    #[allow(unreachable_code)]
     self.0.recv().ok()
   }
 }
@@ -128,19 +135,54 @@ fn run_worker<W: PathWorker + ?Sized + 'static, P: Printer>(
         };
         let stats = w.get_trace();
         stats.add_scanned();
+        #[cfg(ast_grep_verif)]
+        {
+          use ast_grep_core::verif_hook as vh;
+          vh::emit("file_start", &format!("\"path\":{}", vh::quote(&p.to_string_lossy())));
+          vh::sched_point("produce");
+        }
         let Ok(items) = w.produce_item::<P>(&p, processor) else {
           stats.add_skipped();
+          #[cfg(ast_grep_verif)]
+          {
+            use ast_grep_core::verif_hook as vh;
+            vh::emit("file_skip", &format!("\"path\":{}", vh::quote(&p.to_string_lossy())));
+          }
           return WalkState::Continue;
         };
+        #[cfg(ast_grep_verif)]
+        let mut verif_item_no = 0usize;
         for result in items {
+          #[cfg(ast_grep_verif)]
+          {
+            use ast_grep_core::verif_hook as vh;
+            vh::sched_point("send");
+            // logged before the send, so that the consumer's `recv` line can only come after it
+            vh::emit("send", &format!("\"path\":{},\"i\":{}", vh::quote(&p.to_string_lossy()), verif_item_no));
+            verif_item_no += 1;
+          }
           match tx.send(result) {
             Ok(_) => continue,
             Err(_) => return WalkState::Quit,
           }
         }
+        #[cfg(ast_grep_verif)]
+        {
+          use ast_grep_core::verif_hook as vh;
+          vh::emit("file_done", &format!("\"path\":{}", vh::quote(&p.to_string_lossy())));
+        }
         WalkState::Continue
       })
     });
+    #[cfg(ast_grep_verif)]
+    ast_grep_core::verif_hook::emit("walk_done", "");
   });
+  #[cfg(ast_grep_verif)]
+  {
+    let ret = worker.consume_items(Items(rx), printer);
+    ast_grep_core::verif_hook::emit("consume_done", "");
+    return ret;
+  }
+  #[allow(unreachable_code)]
   worker.consume_items(Items(rx), printer)
 }
